@@ -515,7 +515,10 @@ def build_cell(template, cellvars, depth_up, parallel=False):
     for sp in template.get('steps', []):
         spec = dict(sp)
         spec['cellvars'] = cellvars
-        st = TStep({'spec': spec, 'name': sp['name']})
+        sparams = {'spec': spec, 'name': sp['name']}
+        if parallel and sp.get('parallel', True):
+            sparams['_parallel'] = True
+        st = TStep(sparams)
         if sp.get('where') == 'processes':
             processes[sp['name']] = st
         else:
@@ -548,6 +551,9 @@ class AProc(ScriptedMixin, Process):
         sub = {'vars': cell_var_schema(s['cellvars'])}
         schema['agents'] = {'*': copy.deepcopy(sub)}
         schema['pool'] = {'*': copy.deepcopy(sub)}
+        if s.get('tokens'):
+            # a glob store whose children are plain variables
+            schema['tokens'] = {'*': {'_default': 7, '_emit': True}}
         return schema
 
     def _fresh(self, k, j=0):
@@ -633,6 +639,24 @@ class AProc(ScriptedMixin, Process):
             c = pick('agents', op[1])
             if c is not None:
                 up['agents'] = {c: {'vars': {op[2]: decode_value(copy.deepcopy(op[3]))}}}
+        elif kind == 'add_write':
+            # a structural operation in one store and a plain value update in
+            # another store, in one update
+            up['agents'] = {'_add': [{'key': self._fresh(k),
+                                      'state': {'vars': decode_value(copy.deepcopy(op[1]))}}]}
+            c = pick('pool', op[2])
+            if c is not None:
+                up['pool'] = {c: {'vars': {'n': op[3]}}}
+        elif kind == 'add_leaf' and s.get('tokens'):
+            up['tokens'] = {'_add': [{'key': self._fresh(k), 'state': op[1]}]}
+        elif kind == 'del_leaf' and s.get('tokens'):
+            kids = sorted(states['tokens'].keys())
+            if kids:
+                up['tokens'] = {'_delete': [kids[op[1] % len(kids)]]}
+        elif kind == 'write_leaf' and s.get('tokens'):
+            kids = sorted(states['tokens'].keys())
+            if kids:
+                up['tokens'] = {kids[op[1] % len(kids)]: op[2]}
         return up
 
 
@@ -727,3 +751,9 @@ class Holder(ScriptedMixin, Process):
 
     def _script_update(self, k, timestep, states):
         return {}
+
+
+class VStep(VProc, Step):
+    """The viewer as a step: it looks at the cells inside the step phase, after
+    the structural updates of the steps it depends on."""
+    name = 'viewer'
